@@ -17,7 +17,7 @@ LEVEL_TEXT = ("Extension histories are replayed on the real ClauseDB with redire
               "parents with their own earlier answers and a structural snapshot.")
 LEVEL_NOTE = "Known engine findings on the non-clean input class apply as in C01."
 TECHNIQUE = "runtime history monitor (extension histories vs union programs + parent snapshot)"
-BUDGET = {"quick": 280, "thorough": 8000}
+BUDGET = {"quick": 280, "thorough": 4500}
 TIME_BUDGET = {"quick": 200, "thorough": 3000}
 CASE_TIMEOUT = 60
 WATCHDOG_FRACTION = 0.04
